@@ -299,24 +299,31 @@ structure Outer where
   sliceEnd : Nat := 0
 deriving Repr
 
+/-- the fixed header fields after `ZDIV`: SLICELEN (15 bits, length − 1), WDIV (3), WTRUNC (1), NEWPAL (1) -/
+def readSliceHeader : Rd (Nat × Nat × Bool × Bool) := do
+  let n ← get 15
+  let wdiv ← get 3
+  let t ← get 1
+  let np ← get 1
+  pure (n + 1, wdiv, t == 1, np == 1)
+
+/-- DIROFS (5), PALSIZE (5, size − 1 or 0 for no palette), PALBITS (3, width − 2), palette entries -/
+def readPalette : Rd Pal := do
+  let dirofs ← get 5
+  let ps ← get 5
+  let palsize := if ps > 0 then ps + 1 else 0
+  let palbits := (← get 3) + 2
+  let palette ← getPalette palbits palsize
+  pure { directOffset := dirofs, palsize := palsize, palbits := palbits, palette := palette }
+
 /-- everything after `ZDIV` of one slice: rest of the header, chunks, emission -/
 def sliceBody (zdiv : Nat) (o : Outer) : Rd Outer := do
   if !(zdiv < 4 || zdiv == zdivDisable) then Rd.fail .badZdiv else
   let useZ := zdiv != zdivDisable
-  let nvalues := (← get 15) + 1
-  let wdiv ← get 3
-  let trunc := (← get 1) == 1
-  let newPal := (← get 1) == 1
+  let (nvalues, wdiv, trunc, newPal) ← readSliceHeader
   if o.first && !newPal then Rd.fail .noPalette else
   if !newPal && useZ != (o.zPrevDiv != zdivDisable) then Rd.fail .zrunSwitch else
-  let pal ← (if newPal then do
-      let dirofs ← get 5
-      let ps ← get 5
-      let palsize := if ps > 0 then ps + 1 else 0
-      let palbits := (← get 3) + 2
-      let palette ← getPalette palbits palsize
-      pure { directOffset := dirofs, palsize := palsize, palbits := palbits, palette := palette }
-    else pure o.pal : Rd Pal)
+  let pal ← (if newPal then readPalette else pure o.pal : Rd Pal)
   if wdiv != wdivUncompressed && !(wdiv < 6) then Rd.fail .badWdiv else
   let uncompressed := wdiv == wdivUncompressed
   let wDiv := if uncompressed then (if pal.palsize > 0 then indexBits pal.palsize else pal.palbits) else wdiv
